@@ -549,6 +549,8 @@ def _walrus_program(p) -> str:
         core.append('print("after", x)')
     if "nested" in reads:
         core += ["def reader():", "    return x", 'print("nested", reader())']
+    if "aug" in reads:
+        core.append("x += 1")
     head = ["def compute():", '    print("compute")', f"    return {val}", "", "", "def fallback():", '    print("fallback")', f"    return {val}", "", ""]
 
     def ind(lines, n=1):
@@ -584,7 +586,10 @@ def check_walrus(chk: Check) -> None:
         c[0]["reads"] = sorted(c[0]["reads"])
     n = chk.pick(200, len(cases))
     if n < len(cases):
-        cases = random.Random(chk.seed + 3).sample(cases, n)
+        # the boundary of the rule (nobody, or exactly one kind of reader) for one test form, and a seeded sample of the rest
+        edge = [c for c in cases if len(c[0]["reads"]) <= 1 and c[0]["test"] == "name" and c[0].get("vkind", "atom") == "atom"]
+        rest = [c for c in cases if c not in edge]
+        cases = edge + random.Random(chk.seed + 3).sample(rest, max(0, n - len(edge)))
     files = {f"u{i:04d}.py": _walrus_program(p) for i, (p, _e) in enumerate(cases)}
     names = sorted(files)
     per = max(1, (len(names) + 15) // 16)
